@@ -25,10 +25,12 @@ import json
 man = json.loads((common.VERIF / "MANIFEST.json").read_text())
 targets = [f"theories/Props/{c['property_id']}.vo" for c in man["checks"]
            if (COQ / "theories" / "Props" / f"{c['property_id']}.v").exists()]
-ok, out = coq_make(targets, timeout=3000)
+ok, out = coq_make(["-k", *targets], timeout=3000)
 print(out[-3000:])
 if not ok:
-    rc = 1
+    # a property whose closure does not build is reported by that property's own check (as a broken obligation);
+    # setup only fails when the infrastructure itself is unusable
+    print("[setup] WARNING: some property closures did not build; the corresponding checks will report it")
 # 3. parser front end
 try:
     import engine
